@@ -2,6 +2,13 @@
 from vlib import Case
 
 ID = "C16"
+CLAIMED = True
+LEVEL_TEXT = ("Coq theorems over a Gallina model of the TXT codec: round trip for every accepted property list "
+              "(all sizes, all byte values), refusal characterised, decoder total and reading only inside the record; "
+              "the model is tied to the Rust on every run by a regenerated guard translator (Gen/Params.v) and a "
+              "differential correspondence run, and the theorem statements are executed as monitors on the "
+              "implementation's outputs")
+TECHNIQUE = "machine-checked proof in Coq (round-trip by induction over the property list) + model/implementation correspondence"
 THEOREM_FILE = "Props/C16.v"
 LEVELS = "K2 (TXT codec through ServiceInfo::new / generate_txt / decode_txt_unique / TxtProperties::get)"
 RULE = ("generated property lists (structured, boundary lengths 254/255/256, refused forms, "
